@@ -7,7 +7,7 @@ CHECKS = {
         "parts": BASE,
         "level": "exploration",
         "technique": "runtime monitor: step-bounded tokenizer driver + losslessness/quoted-run oracle (bounded-exhaustive + random inputs)",
-        "rule": "inputs: every string over the 15-symbol token alphabet {space TAB a 1 _ $ ? , ' \" ` [ ] \\ e-acute} up to length 5 (quick) / 7 (thorough), random Unicode strings up to 300 chars, constructed prefix+quoted-run+suffix inputs (bracket runs end at the first `]`) and constructed prefix+word+suffix inputs (a word — letters of any script or digits, then letters, digits, `_`, `$` — is one unquoted token); a case is non-trivial when it tokenizes into >= 2 tokens; distinct = distinct input strings (hashed)",
+        "rule": "inputs: every string over the 15-symbol token alphabet {space TAB a 1 _ $ ? , ' \" ` [ ] \\ e-acute} up to length 5 (quick) / 7 (thorough), random Unicode strings up to 300 chars, short strings over 18 characters from outside ASCII's classes (byte-order mark, Unicode spaces, form feed, non-Latin and superscript digits, NUL), constructed prefix+quoted-run+suffix inputs (bracket runs end at the first `]` that no backslash precedes) and constructed prefix+word+suffix inputs (a word — letters of any script or digits, then letters, digits, `_`, `$` — is one unquoted token); a case is non-trivial when it tokenizes into >= 2 tokens; distinct = distinct input strings (hashed)",
         "assumptions": [
             "reference for quoted runs is the construction itself: the run is assembled from pieces (plain chars, doubled delimiter, backslash-escaped delimiter, escaped backslash, marks) so its end is known without re-implementing the tokenizer",
             "a hang inside one tokenizer call is reported after 30 s without progress (normal cost is microseconds)",
@@ -32,7 +32,7 @@ CHECKS["C03"] = {
     "parts": BASE,
     "level": "exploration",
     "technique": "runtime monitor: dialect lexers/decoders written from the engine manuals + real SQLite engine decode the rendered literal; marker-vs-hostile token-sequence comparison (bounded-exhaustive + random)",
-    "rule": "inputs: every string over the 21-symbol escape alphabet {' \" \\ NUL BS TAB LF CR SUB % _ a z Z 0 x e-acute euro g-clef ? $} up to length 3 (quick) / 4 (thorough) in each of 19 literal positions (query values, constants, ORDER BY FIELD, LIKE/ESCAPE, JSON, Postgres ARRAY, DEFAULT, MySQL COMMENT and ENUM labels, Postgres CREATE/ALTER TYPE labels, inject_parameters, INSERT/UPDATE values) x 3 backends; every char U+0000..U+FFFF plus sampled astral chars as Value::Char and as LIKE ESCAPE char; all byte strings of length <= 2 and random longer ones; random Unicode strings, 1 in 150 of them padded to a length around a documented limit (255 .. 70,000 characters); each rendering goes through one of the equivalent entry points (build_collect_any / to_string / build_collect; build_any / build / to_string for schema statements) and the positions whose constant stays inline under build are followed by a bound value. Non-trivial = the value contains a non-alphanumeric character; distinct = distinct (value, position, backend)",
+    "rule": "inputs: every string over the 21-symbol escape alphabet {' \" \\ NUL BS TAB LF CR SUB % _ a z Z 0 x e-acute euro g-clef ? $} up to length 3 (quick) / 4 (thorough) in each of 27 literal positions (query values, constants, ORDER BY FIELD, LIKE/ESCAPE, JSON object member and top-level JSON string, Postgres ARRAY, DEFAULT, MySQL COMMENT and ENUM labels, Postgres CREATE/ALTER TYPE labels, inject_parameters incl. a numbered placeholder used twice, INSERT/UPDATE values, ALTER TABLE defaults and comments, index predicates, CHECK expressions) x 3 backends; every char U+0000..U+FFFF plus sampled astral chars as Value::Char and as LIKE ESCAPE char; all byte strings of length <= 2 and random longer ones; random Unicode strings, 1 in 150 of them padded to a length around a documented limit (255 .. 70,000 characters); each rendering goes through one of the equivalent entry points (build_collect_any / to_string / build_collect; build_any / build / to_string for schema statements) and the positions whose constant stays inline under build are followed by a bound value. Non-trivial = the value contains a non-alphanumeric character; distinct = distinct (value, position, backend)",
     "assumptions": [
         "MySQL default sql_mode (no ANSI_QUOTES / NO_BACKSLASH_ESCAPES); Postgres standard_conforming_strings=on; lexical rules transcribed from the manuals (DESIGN Appendix A)",
         "NUL is excluded for Postgres and SQLite text (no representation, as the property states)",
@@ -47,7 +47,7 @@ CHECKS["C04"] = {
     "parts": BASE,
     "level": "exploration",
     "technique": "runtime monitor: dialect lexers decode every rendered identifier; marker-vs-hostile token-sequence comparison over 62 identifier positions; SQLite catalogue / column-name read-back",
-    "rule": "inputs: every non-empty string over the 12-symbol identifier alphabet {\" ` ' \\ space ; - . [ ] a e-acute} up to length 3 (quick) / 4 (thorough) in each of 62 identifier positions of query and schema statements x 3 backends, plus random Unicode names up to 32 chars, plus 13 names that come from #[derive(Iden)] / #[derive(IdenStatic)] enums and a unit struct (renamed variants with quote characters, in and out of last position) in 5 positions x 3 backends; non-trivial = the name contains a non-alphanumeric character; distinct = distinct (name, position, backend)",
+    "rule": "inputs: every non-empty string over the 13-symbol identifier alphabet {\" ` ' \\ space ; - . [ ] a e-acute *} up to length 3 (quick) / 4 (thorough) in each of 65 identifier positions of query and schema statements x 3 backends, plus random Unicode names up to 32 chars, one name in five handed over by a user-written Iden type that writes character by character, plus 13 names that come from #[derive(Iden)] / #[derive(IdenStatic)] enums and a unit struct (renamed variants with quote characters, in and out of last position) in 5 positions x 3 backends; non-trivial = the name contains a non-alphanumeric character; distinct = distinct (name, position, backend)",
     "assumptions": [
         "identifier lexical rules from the manuals: MySQL backtick with doubled backtick (no backslash escapes), Postgres/SQLite double quote with doubled double quote",
         "empty identifiers and NUL are outside the domain; a Postgres enum cast type ending in [] denotes the array form by documented convention",
@@ -73,7 +73,7 @@ CHECKS["C11"] = {
     "parts": BASE,
     "level": "exploration",
     "technique": "runtime monitor: independent reference template scanner vs cust_with_values / cust_with_expr(s) rendering in both modes, plus inject_parameters(build) == to_string",
-    "rule": "(a) inject_parameters(build(stmt)) == to_string(stmt) for 150k (quick) / 2M (thorough) generated statements of all kinds on the three backends; (b) templates assembled from 14 piece kinds (words, numbers, operators, whitespace, commas, parentheses, quoted literals and identifiers containing marks and doubled quotes, delimited placeholders incl. repeated/reordered $n, doubled marks, the other dialect's mark, `$word`, lone `$`): every piece sequence of length <= 4 (quick) / 5 (thorough) x 3 backends, random templates of up to 20 pieces incl. SQLite [bracket] identifiers, nested / doubled closing brackets, Postgres words that contain `$<digits>` (one identifier, nothing to substitute), a mark's number running into a word (`$1st`, `$1$2`), templates without a trailing blank and ending in a lone `$`; the statically dispatched to_string is compared as an entry point of its own; values are tagged integers, strings containing marks and quotes, or compound expressions; non-trivial = template has a placeholder or >= 2 piece kinds; distinct = distinct (template, backend)",
+    "rule": "(a) inject_parameters(build(stmt)) == to_string(stmt) for 150k (quick) / 2M (thorough) generated statements of all kinds on the three backends; (b) templates assembled from 14 piece kinds (words, numbers, operators, whitespace, commas, parentheses, quoted literals and identifiers containing marks and doubled quotes, delimited placeholders incl. repeated/reordered $n, doubled marks, the other dialect's mark, `$word`, lone `$`): every piece sequence of length <= 4 (quick) / 5 (thorough) x 3 backends, random templates of up to 20 pieces incl. SQLite [bracket] identifiers, nested / doubled closing brackets, Postgres words that contain `$<digits>` (one identifier, nothing to substitute), a mark's number running into a word (`$1st`, `$1$2`), templates without a trailing blank and ending in a lone `$`, stand-alone characters from outside ASCII's classes; inject_parameters applied to the template text itself (a numbered placeholder possibly used twice); the statically dispatched to_string is compared as an entry point of its own; values are tagged integers, strings containing marks and quotes, or compound expressions; non-trivial = template has a placeholder or >= 2 piece kinds; distinct = distinct (template, backend)",
     "assumptions": [
         "placeholders and doubled marks are delimited from adjacent words (on Postgres `abc$$` is an identifier and `$1$$` is ambiguous, so such gluing is outside the domain)",
         "inject_parameters is checked only for statements whose text outside quotes contains no literal mark (a literal `?` in built SQL is indistinguishable from a placeholder by construction)",
